@@ -126,10 +126,11 @@ def agree_class(body):
   return not any(st['op'] in ('put', 'sow', 'perturb', 'get') for st in S.walk(body))
 
 
-def lazy_eligible(body):
+def lazy_eligible(body, mj=None):
+  mj = {'deny': 'intermediates'} if mj is None else mj
   for st in S.walk(body):
-    if st['op'] == 'sow' and st['c'] == 'intermediates':
-      continue  # init's default mutable excludes it: the sow is a no-op and its value is no output
+    if st['op'] == 'sow' and not S.in_filter_ref(mj, st['c']):
+      continue  # the filter excludes the collection: the sow is a no-op and its value is no output
     if st['op'] in ('variable', 'put', 'sow', 'perturb') and not S.expr_const(st['e']):
       return False
   return True
@@ -249,7 +250,7 @@ def program_suite(ctx, conv, prog, pending):
       bind_unbind(ctx, R, prog, V, x, pending)
   # --- shape-only init ----------------------------------------------------------------------------
   if rng.random() < 0.55:
-    shape_only(ctx, conv, prog, rng.choice(styles), x, pending)
+    shape_only(ctx, conv, prog, rng.choice(styles), x, pending, mj=(rng.choice(LAZY_FILTERS) if rng.random() < 0.4 else None))
 
 
 def _shape(v):
@@ -359,20 +360,42 @@ def bind_unbind(ctx, R, prog, V, x, pending=None):
       pending.append(({'kind': 'unbind', 'vars': V, 'path': sub_path, 'got': got}, None))
 
 
-def shape_only(ctx, conv, prog, style, x, pending):
-  """lazy_init / eval_shape / jit of init: tree structure, shapes and dtypes of concrete init"""
+def shape_only(ctx, conv, prog, style, x, pending, mj=None, force_jit=False):
+  """lazy_init / eval_shape / jit of init, all called with the SAME `mutable` filter as concrete init: the same
+  collections, tree structure, shapes and dtypes — or they raise together"""
   global KEY
   KEY = KEY if KEY is not None else jax.random.key(0)
   R = S.Rendered(prog, style)
-  mut = S.filter_py({'deny': 'intermediates'})
+  mj = {'deny': 'intermediates'} if mj is None else mj
+  mut = S.filter_py(mj)
   xin = jnp.asarray(x, jnp.float32)
   S.Guard.reset()
   r = R.init({'params': KEY}, np.asarray(x, S.F32), mut)
-  if r[0] != 'ok' or S.Guard.peak >= S.LIMIT:
+  if S.Guard.peak >= S.LIMIT or (r[0] == 'ok' and mut is False):
+    return
+  case = {'kind': 'shape-only', 'prog': prog, 'style': style, 'x': x, 'mutable': mj}
+  ctx.case(case)
+  ctx.count('shape_only_filter', C1._form(mj))
+  if r[0] != 'ok':
+    # concrete init raises with this filter (e.g. the program writes a collection the filter excludes):
+    # the shape-only entry points must raise too, not return a tree
+    def conc_init_e(key, xx):
+      if style == 'core':
+        return S.core_scope.init(R.fn, mutable=mut)(key, xx)[1]
+      return R.module.init(key, xx, mutable=mut)
+
+    vs = [('eval_shape', lambda: jax.eval_shape(conc_init_e, KEY, xin))]
+    if style != 'core' and lazy_eligible(prog, mj):
+      vs.append(('lazy_init', lambda: R.module.lazy_init(KEY, jax.ShapeDtypeStruct((), jnp.float32), mutable=mut)))
+    for name, fn in vs:
+      ctx.count('oracle', 'shape-only-both-raise:' + name)
+      try:
+        res = fn()
+      except Exception:
+        continue
+      ctx.violation('shape-only-returns-where-init-raises:' + name, f'concrete init(mutable={mj!r}) raises {r[1]} but {name} returned {sorted(S.shapes_of(res))}', dict(case, variant=name))
     return
   want = S.shapes_of(r[1][1])
-  case = {'kind': 'shape-only', 'prog': prog, 'style': style, 'x': x}
-  ctx.case(case)
 
   def conc_init(key, xx):
     if style == 'core':
@@ -380,9 +403,9 @@ def shape_only(ctx, conv, prog, style, x, pending):
     return R.module.init(key, xx, mutable=mut)
 
   variants = [('eval_shape', lambda: jax.eval_shape(conc_init, KEY, xin))]
-  if ctx.rng.random() < (0.25 if ctx.tier == 'quick' else 0.5):
+  if force_jit or ctx.rng.random() < (0.25 if ctx.tier == 'quick' else 0.5):
     variants.append(('jit', lambda: jax.jit(conc_init)(KEY, xin)))
-  if lazy_eligible(prog):
+  if lazy_eligible(prog, mj):
     sds = jax.ShapeDtypeStruct((), jnp.float32)
     if style == 'core':
       variants.append(('lazy_init', lambda: S.core_scope.lazy_init(R.fn, mutable=mut)(KEY, sds)))
@@ -394,10 +417,10 @@ def shape_only(ctx, conv, prog, style, x, pending):
       res = fn()
       got = S.shapes_of(res)
     except Exception as e:
-      ctx.violation('shape-only-raises:' + name, f'{name} of init raised {S.classify(e)} where concrete init succeeds', dict(case, variant=name))
+      ctx.violation('shape-only-raises:' + name, f'{name} of init (mutable={mj!r}) raised {S.classify(e)} where concrete init with the same filter succeeds', dict(case, variant=name))
       continue
     if got != want:
-      ctx.violation('shape-only-differs:' + name, f'{name} of init gives {got}, concrete init {want}', dict(case, variant=name))
+      ctx.violation('shape-only-differs:' + name, f'{name} of init (mutable={mj!r}) gives {got}, concrete init with the same filter {want}', dict(case, variant=name))
     elif name == 'lazy_init':
       # lazy_init returns the *known* values: on argument-free programs these are concrete init's values
       ctx.count('oracle', 'lazy-init-values')
@@ -405,7 +428,7 @@ def shape_only(ctx, conv, prog, style, x, pending):
       if lv != cv:
         ctx.violation('lazy-init-values-differ', f'lazy_init returned {lv}, concrete init {cv}', dict(case, variant=name))
   # model tie: the model's shape-only view of its own init result
-  pending.append(({'kind': 'abstract', 'prog': prog, 'style': style, 'x': x, 'want': {'/'.join(k): (list(v[0]) if _is_tensor_entry(v) else [list(t[0]) for t in v]) for k, v in want.items()}}, None))
+  pending.append(({'kind': 'abstract', 'prog': prog, 'style': style, 'x': x, 'mutable': mj, 'want': {'/'.join(k): (list(v[0]) if _is_tensor_entry(v) else [list(t[0]) for t in v]) for k, v in want.items()}}, None))
 
 
 def _is_tensor_entry(v):
@@ -467,7 +490,7 @@ def flush(ctx, drv, conv, pending):
     elif sc['kind'] == 'unbind':
       reqs.append(('unbind', [sc['vars'], sc['path']]))
     elif sc['kind'] == 'abstract':
-      reqs.append(S.model_request({'kind': 'init', 'prog': sc['prog'], 'style': sc['style'], 'mutable': {'deny': 'intermediates'},
+      reqs.append(S.model_request({'kind': 'init', 'prog': sc['prog'], 'style': sc['style'], 'mutable': sc.get('mutable', {'deny': 'intermediates'}),
                                    'rngs': True, 'x': sc['x']}, conv))
     else:
       reqs.append(S.model_request(sc, conv))
@@ -536,6 +559,56 @@ def lazy_stream(ctx, conv, pending, n):
     shape_only(ctx, conv, prog, rng.choice(styles), rng.randrange(-2, 3), pending)
 
 
+LAZY_FILTERS = [
+  {'deny': 'intermediates'}, True, ['params', 'stats'], ['params', 'stats', 'cache'], ['params', 'stats', 'cache', 'losses'],
+  {'deny': ['intermediates', 'losses']}, {'deny': 'losses'}, {'deny': ['losses', 'inter']}, {'deny': []},
+  {'deny': ['intermediates', 'cache']}, ['params', 'stats', 'cache', 'inter', 'intermediates'],
+]
+
+
+def lazy_filter_stream(ctx, conv, pending, n):
+  """programs that write to >= 3 collections (params, statistics, a cache, sown 'losses' / 'intermediates' / 'inter',
+  some of the sown values depending on the argument) initialised — concretely and shape-only — under the same
+  non-default `mutable` filter"""
+  rng = ctx.rng
+
+  def inject(body, top):
+    out = []
+    for st in body:
+      if st['op'] == 'child':
+        st = dict(st, body=inject(st['body'], False))
+      out.append(st)
+      if rng.random() < 0.4:
+        c = rng.choice(['losses', 'losses', 'intermediates', 'inter'])
+        e = {'+': ['x', rng.randrange(0, 3)]} if rng.random() < 0.6 else rng.randrange(1, 4)
+        out.append({'op': 'sow', 'c': c, 'n': rng.choice(S.SNAMES), 'e': e})
+    if top:
+      out.insert(0, {'op': 'variable', 'c': 'cache', 'n': 'u9', 'shape': [2], 'e': 1})
+      out.insert(0, {'op': 'variable', 'c': 'stats', 'n': 'u8', 'shape': [], 'e': 0})
+      out.insert(0, {'op': 'param', 'n': 'w9', 'shape': [3], 'init': 1})
+      out.append({'op': 'sow', 'c': 'losses', 'n': 's9', 'e': {'*': ['x', 2]} if rng.random() < 0.5 else 2})
+    return out
+
+  def shift(body):
+    # three declarations were put in front of the top-level body: shift its local references by 3
+    def sh(e):
+      if isinstance(e, dict):
+        if 'l' in e:
+          return {'l': e['l'] + 3}
+        k = '+' if '+' in e else '*'
+        return {k: [sh(e[k][0]), sh(e[k][1])]}
+      return e
+    return [dict(st, e=sh(st['e'])) if 'e' in st and st['op'] != 'child' else st for st in body]
+
+  for _ in range(n):
+    base = S.gen_prog(rng, depth=rng.choice([1, 2]), flavour='decl_only')
+    prog = inject(shift(base), True)
+    mj = rng.choice(LAZY_FILTERS)
+    styles = [st for st in S.styles_for(prog) if st != 'core']
+    ctx.count('lazy_filter_stream', 'programs')
+    shape_only(ctx, conv, prog, rng.choice(styles), rng.randrange(-2, 3), pending, mj=mj, force_jit=rng.random() < 0.15)
+
+
 def run_case(ctx, drv, conv, case):
   kind = case.get('kind')
   if kind in ('init', 'apply'):
@@ -546,7 +619,7 @@ def run_case(ctx, drv, conv, case):
     S.check_layout(ctx, case, 'C02')
   elif kind == 'shape-only':
     pending = []
-    shape_only(ctx, conv, case['prog'], case['style'], case['x'], pending)
+    shape_only(ctx, conv, case['prog'], case['style'], case['x'], pending, mj=case.get('mutable'))
     flush(ctx, drv, conv, pending)
   elif kind == 'bind-unbind':
     bind_unbind(ctx, S.Rendered(case['prog'], 'setup'), case['prog'], case['vars'], case['x'])
@@ -578,6 +651,7 @@ def run(ctx):
   for _ in range(80 if not thorough else 800):
     S.check_layout(ctx, S.gen_layout(ctx.rng), 'C02', pending)
   lazy_stream(ctx, conv, pending, 40 if not thorough else 400)
+  lazy_filter_stream(ctx, conv, pending, 70 if not thorough else 700)
   flush(ctx, drv, conv, pending)
   # parameter shapes that follow the argument's shape; submodules re-used on different widths
   for _ in range(60 if not thorough else 600):
